@@ -32,7 +32,10 @@ def meta_canon(m):
     """Canonical form of a bucket metadata dict as handed out by the store."""
     created = m.get("created")
     if isinstance(created, str):
-        created_us = dt_to_us(iso8601.parse_date(created))
+        try:
+            created_us = dt_to_us(iso8601.parse_date(created))
+        except Exception:
+            created_us = ("unparsable", created)
     elif created is None:
         created_us = None
     else:
